@@ -68,6 +68,8 @@ def make_data() -> dict[str, dict[str, Any]]:
         "n_i": {"x": 1, "a": [1, 2, 3], "z": 2}, "n_f": {"x": 1.0, "a": [1.0, 2.0, 3.0], "z": 2.0},
         "n_b": {"x": True, "a": [True, 2, 3], "z": 2}, "n_s": {"x": "1", "a": ["1", "2", "3"], "z": "2"},
         "m_t": {"x": True}, "m_f": {"x": False},
+        "z_bad": {"x": 4, "z0": 0, "a": [1, 2, 3]}, "z_ok": {"x": 4, "z0": 2, "a": [1, 2, 3]},
+        "z_none": {"x": 4, "z0": 9, "a": [1, 2, 3]},
         # text that compares (and hashes) equal but differs in "safe" marking: str vs markupsafe.Markup
         "t_plain": {"x": "a<b>&\"' z"}, "t_safe": {"x": _markup("a<b>&\"' z")},
         "t_plain2": {"x": "PGI+ %3C&lt;"}, "t_safe2": {"x": _markup("PGI+ %3C&lt;")},
@@ -99,6 +101,19 @@ TEMPLATES: dict[str, str] = {
     "tern": "{{ 'T' if x else 'F' }}{% if a contains 1 %}1{% endif %}{{ x | default: 'd' }}",
     "trans": "{% translate count: x %}one{% plural %}many {{ count }}{% endtranslate %}{{ 'm' | t }}",
     # one parsed template whose data selects which of two macro definitions a call binds to
+    # lexer/parser state: sources that end inside whitespace control or an unclosed construct, followed by
+    # sources that begin with whitespace
+    "lexA": "a {%- if x -%} b {%- endif -%}",
+    "lexB": "  lead {{ x }} tail  ",
+    "lexC": "{{ x -}}",
+    "lexD": "\n\n {{ x }}\n",
+    "lexE": "{% comment %}unclosed {{ x }}",
+    "lexF": "{% raw %}unclosed {{ x }}",
+    "lexG": "  {% if x %}  y",
+    # node-level buffers: a capture that is aborted half way (filter error, break) in one render
+    "capErr": "{% capture s %}A{{ x | divided_by: z0 }}B{% endcapture %}[{{ s }}]",
+    "capBrk": "{% for i in a %}{% capture s %}<{{ i }}{% if i == z0 %}{% break %}{% endif %}>{% endcapture %}[{{ s }}]{% endfor %}",
+    "capInc": "{% capture s %}A{% include 'nosuch' %}B{% endcapture %}[{{ s }}]{% capture s %}C{% endcapture %}[{{ s }}]",
     "macsel": "{% if x %}{% macro m a, b: 'B' %}<{{ a }}:{{ b }}>{% endmacro %}{% else %}{% macro m b, a: 'A' %}<{{ a }}:{{ b }}>{% endmacro %}{% endif %}{% call m 'one' %}",
     "withsel": "{% if x %}{% with v: 1 %}{{ v }}{% endwith %}{% else %}{% with v: 2, w: 3 %}{{ v }}{{ w }}{% endwith %}{% endif %}{% cycle x: 'a', 'b' %}",
 }
@@ -138,6 +153,10 @@ FAMILIES: dict[str, list[tuple[str, str, str]]] = {
 for _i in range(len(STR_FILTERS)):
     FAMILIES[f"num:sf_{_i}"] = [(f"sf_{_i}", d, e) for d in ("t_plain", "t_safe", "t_plain2", "t_safe2") for e in ("A",)] + \
                                [(f"sf_{_i}", "t_plain", "E"), (f"sf_{_i}", "t_safe", "E")]
+FAMILIES["lexer"] = [(t, "i1", e) for t in ("lexA", "lexB", "lexC", "lexD", "lexG") for e in ("E",)] + \
+                    [("lexE", "i1", "X"), ("lexF", "i1", "X"), ("lexB", "i1", "X"), ("lexA", "i1", "X")]
+FAMILIES["capture"] = [("capErr", "z_bad", "E"), ("capErr", "z_ok", "E"), ("capBrk", "z_ok", "E"), ("capBrk", "z_none", "E"),
+                       ("capInc", "i1", "E"), ("capErr", "z_bad", "X"), ("capErr", "z_ok", "X"), ("capInc", "i1", "X")]
 # one small family per filter: the same template with inputs that compare equal but differ in type
 for _f in NUM_FILTERS:
     for _t in ("nx_", "nz_", "na_", "nb_"):
@@ -172,13 +191,15 @@ class HistoryRunner:
                             globals={"eg": "EG", "g": "G"}),
             "A": U.make_env(flags=FLAGS, loader=liquid.CachingDictLoader(dict(PARTIALS)), extra=True, autoescape=True,
                             globals={"eg": "EG", "g": "G"}),
+            "X": U.make_env(flags=FLAGS, loader=liquid.CachingDictLoader(dict(PARTIALS)), extra=True,
+                            tolerance=liquid.Mode.LAX, globals={"eg": "EG", "g": "G"}),
         }
         self.templates: dict[tuple[str, str], Any] = {}
 
     def template(self, tid: str, eid: str) -> Any:
         key = (tid, eid)
         if key not in self.templates:
-            self.templates[key] = self.envs[eid].from_string(TEMPLATES[tid], name=tid)
+            self.templates[key] = self.U.outcome(lambda: self.envs[eid].from_string(TEMPLATES[tid], name=tid))
         return self.templates[key]
 
     def fingerprint(self, t: Any) -> str:
@@ -200,7 +221,10 @@ class HistoryRunner:
     def step(self, act: tuple[str, str, str]) -> dict[str, Any]:
         tid, did, eid = act
         U = self.U
-        t = self.template(tid, eid)
+        pt = self.template(tid, eid)
+        if not pt.ok:
+            return {"out": ["parse-" + pt[0], pt.error_class], "data_same": True, "tpl_same": True, "env_globals_same": True}
+        t = pt.value
         data = self.data[did]
         before = U.deep_snapshot(data)
         ids_before = [id(v) for v in data.values()]
